@@ -41,6 +41,10 @@ fn main() {
                 println!("{:3} {}", name, v.join(" "));
             }
         }
+        "c18solo" => {
+            let p: usize = args.get(2).and_then(|x| x.parse().ok()).unwrap_or(0);
+            checks::c18::solo_table_main(p);
+        }
         "selftest" => {
             std::process::exit(selftest::run(&ucd));
         }
